@@ -10,7 +10,8 @@ CASE_TYPE = "C10.case"
 CHECK_FN = "C10.check_case"
 SHARD = 40
 RULE = ("a case is a namespace tree on disk (1-4 root directories, nesting depth 0-3, .dsdl and .uavcan files, several versions per "
-        "name, files that are no definitions, directories named like definition files) plus read_namespace / read_files calls (target subsets of 1-5 files, with repetitions) "
+        "name, files that are no definitions, directories named like definition files; a targeted stream of 8-10 type names per case "
+        "with the version neighbours m.255 / (m+1).0 read as targets and as dependencies) plus read_namespace / read_files calls (target subsets of 1-5 files, with repetitions) "
         "and calls whose directory sets are nested (also with equal names, at depth 1 and deeper), equal, or equal in name up to case with allow_root_namespace_name_collision "
         "both ways; every call is repeated with 2-3 equivalent spellings of the directory arguments (relative, '..', '.', through a "
         "symbolic link, str / Path, permuted, duplicated; for read_files also directories and target files spelled differently: root "
@@ -231,9 +232,53 @@ def corpus():
             {"files": tw, "queries": [{"k": "ns", "root": ns, "lookups": [], "allow": True, "variants": []}], "flavor": "corpus-twins", "dirs": [ns]}]
 
 
+def gen_neighbours(rng):
+    """Targeted: for many type names the version neighbours m.255 / (m+1).0 (and 0.254 / 1.1 as control), i.e. versions that
+    collide under any folding of (major, minor) into one number with a radix <= 255; read as targets and as dependencies.
+    The results must come newest first.  Many pairs per case: a tie left to the iteration order of a set shows up."""
+    roots = [["a", rng.choice(B.ROOT_NAMES)], ["b", "lib"]]
+    defs = []
+    names = rng.sample(["Alpha", "Beta", "Gamma", "Delta", "Eps", "Zeta", "Eta", "Theta", "Iota", "Kappa", "Lam", "Mu"], rng.choice([8, 9, 10]))
+    members = []
+    for k, nm in enumerate(names):
+        r = roots[0] if k % 3 else roots[1]
+        d = r + ([rng.choice(B.SUBS[:2])] if rng.random() < 0.4 else [])
+        lo, hi = rng.choice([((0, 255), (1, 0)), ((1, 255), (2, 0)), ((254, 255), (255, 0)), ((0, 255), (1, 0)), ((9, 255), (10, 0)), ((0, 254), (1, 1))])
+        pair = []
+        for v in (lo, hi) if rng.random() < 0.5 else (hi, lo):
+            f = B.mkfile(len(defs), d, nm, v[0], v[1], [["plain", rng.choice([8, 16])]], ext="dsdl" if rng.random() < 0.8 else "uavcan")
+            defs.append(f)
+            pair.append(f)
+        if rng.random() < 0.3:
+            defs.append(B.mkfile(len(defs), d, nm, lo[0], 3, [["plain", 8]]))        # a third, ordinary version
+        members.append((r, d, nm, pair))
+    # users: one definition per root that refers to both versions of several names (they become transitive for read_files)
+    users = []
+    for r in roots:
+        body = []
+        for (r2, d, nm, pair) in rng.sample(members, min(len(members), 6)):
+            for f in pair:
+                body.append(["ref", B.full_name(r2, f), f["maj"], f["min"], 0])
+        rng.shuffle(body)
+        u = B.mkfile(len(defs), r, "User", 1, 0, body)
+        defs.append(u)
+        users.append(u["id"])
+    ids = [f["id"] for f in defs if f["id"] not in users]
+    qs = [{"k": "ns", "root": list(r), "lookups": [list(x) for x in roots if x != r], "allow": True} for r in roots]
+    qs.append({"k": "files", "targets": rng.sample(ids, len(ids)), "roots": [list(r) for r in roots], "lookups": []})
+    qs.append({"k": "files", "targets": list(users), "roots": [list(r) for r in roots], "lookups": []})
+    qs.append({"k": "files", "targets": [users[0]] + rng.sample(ids, len(ids) // 2), "roots": [list(roots[0])], "lookups": [list(roots[1])]})
+    for q in qs:
+        q["variants"] = gen_variants(rng, 1)
+    return {"files": defs, "queries": qs, "flavor": "version-neighbours", "dirs": [list(r) for r in roots]}
+
+
 def generate(rng, tier):
     cases = corpus()
     streams = ["corpus"] * len(cases)
+    for _ in range(12 if tier == "quick" else 60):
+        cases.append(gen_neighbours(rng))
+        streams.append("targeted")
     n = 280 if tier == "quick" else 2400
     for _ in range(n):
         cases.append(gen_case(rng, tier))
